@@ -1,6 +1,6 @@
 """C03 — an attempt's reported result reflects what the test process actually did."""
 import vlib
-from props import common
+from props import common, mix
 
 THM = "NextestModel.Thm.C03"
 GEN = []
@@ -9,7 +9,7 @@ TRUSTED = ["model: Model/Classify (create_execution_result, AbortStatus::extract
 ASSUMPTIONS = ["PARTIAL: that `status = Timeout` is set exactly on the terminate-for-timeout path, that spawn errors become ExecFail, and the leak detection timing are executor behaviour exercised end-to-end only (pending)"]
 
 
-def run(seed, tier, replay=None):
+def run_p(seed, tier, replay=None):
     r = common.run_streams([("p_exec", [seed, 10])])
     items = [([b, args, idx], req, impl) for (b, args, idx, req, impl) in r.cases if req.startswith("classify ")]
     mism, _ = common.compare(items, None)
@@ -27,5 +27,9 @@ def run(seed, tier, replay=None):
         "samples": samples, "traces": len(items), "dist": r.dist, "exhaustive": True,
         "violations": violations, "broken": r.broken, "impl_failures": r.impl_failures,
     }
+
+
+def run(seed, tier, replay=None):
+    return mix.merge(run_p(seed, tier, replay), mix.check([mix.mon_results], seed, tier))
 
 KNOWN_MATCHERS = {}
